@@ -213,7 +213,10 @@ class C31(Prop):
         "single cycle with distinct labels, in any storage order and orientation, succeeds and "
         "yields its traversal (C31_chain_complete_cycle); sort_points_on_line: permutation, keys "
         "non-decreasing, and for collinear input a + s_i v the line parameter is monotone "
-        "along the output (C31_sort_on_line_monotone); points_are_planar with the normal from "
+        "along the output (C31_sort_on_line_monotone); sort_point_plane (rotation onto the "
+        "xy-plane transcribed exactly, arctan2 keys compared exactly by sectors and cross "
+        "products): a permutation along which the angle key never decreases (C31_sort_plane); "
+        "points_are_planar with the normal from "
         "a modelled compute_normal accepts every coplanar set (C31_planar_auto); "
         "point_in_polyhedron: a point in the "
         "supporting plane of ANY triangle is answered 'outside' (C31_polyhedron_coplanar_"
@@ -223,7 +226,11 @@ class C31(Prop):
         "triangulated polyhedra, whether solid_angle raised and the exact ray-parity answer).")
     level_note = (
         "Trusted: Coq kernel + vm_compute; harness generator/emitter/oracle; squared forms of "
-        "the norm tests; sort_points_on_line "
+        "the norm tests; sort_point_plane is tied with an explicitly given normal whose unit "
+        "vector and rotation sine are rational (axis-aligned and Pythagorean tilted planes; "
+        "exact permutation in the identity frame, up to a cyclic shift in rotated frames where "
+        "float noise can move a point across the +-pi cut) and checked by the oracle as a valid "
+        "cyclic angular ordering; sort_points_on_line "
         "is compared through its sort key (the rotation is not modelled; orientation rule "
         "taken from rotation_matrix's zero-axis case); pip_ref / pih_ref are exact reference "
         "routines written in Coq.  NOT proved: point_in_polygon for ALL simple non-convex "
@@ -236,7 +243,8 @@ class C31(Prop):
             "non-convex families under symmetries/translations) with every integer point of "
             "the surrounding box; collinear/planar point sets exact and clearly off; half-space "
             "systems of boxes/tetrahedra; chains and cycles of labelled pairs shuffled and "
-            "flipped, plus broken inputs; polyhedra (boxes, tetrahedra, L-prisms) with grid "
+            "flipped, plus broken inputs; planar point sets around a centre in axis-aligned and "
+            "tilted planes with points exactly on the half-axes through the centre; polyhedra (boxes, tetrahedra, L-prisms) with grid "
             "points; non-trivial = the answer is not constant by construction (both outcomes "
             "occur in the case or the structure is non-degenerate); distinct by (case, output)")
     trusted = ["squared-form tolerance tests (|v| <= tol*d  as  v.v <= tol^2 d^2)",
